@@ -26,6 +26,8 @@ def _norm(v):
         return int(v)
     if isinstance(v, pd.Timestamp):
         return str(v)
+    if isinstance(v, tuple):            # labels of a MultiIndex (a missing level value is NaN != NaN)
+        return tuple(_norm(x) for x in v)
     return v
 
 
